@@ -21,16 +21,16 @@ Proof.
   destruct form_ok; cbn [negb] in T; [|destruct T as [T _]; rewrite T in Hin; destruct Hin as [[=]|[]]].
   destruct (is_empty form_id) eqn:Eid; [destruct T as [T _]; rewrite T in Hin; destruct Hin as [[=]|[]]|].
   split; [reflexivity|]. split; [intro E; rewrite E in Eid; discriminate|].
-  destruct (lookup_req form_id) as [rec|]; [|destruct T as [_ T]; rewrite T in Hin; destruct Hin as [Hin|[]]; inversion Hin; subst; discriminate].
+  destruct (lookup_req form_id) as [rec|]; [|destruct T as [_ T]; rewrite T in Hin; destruct Hin as [Hin|[]]; inversion Hin; subst m; cbn [m_resp] in Hm; discriminate Hm].
   exists rec. split; [reflexivity|].
   destruct (app_entity (sr_app rec)) as [ent|]; [|destruct T as [T _]; rewrite T in Hin; destruct Hin as [[=]|[]]].
   assert (NF : forall st out, out = [deliver (sr_acs rec) (sr_binding rec) (sr_relay rec)
        {| m_in_response_to := sr_reqid rec; m_destination := sr_acs rec; m_audience := ent; m_resp := CFailed st (b "failed to create response") |}] ->
        In (CSaml d m) out -> False).
   { intros st out E Hin'. rewrite E in Hin'. destruct Hin' as [Hin'|[]]. unfold deliver in Hin'.
-    destruct (is_empty (sr_acs rec)); [inversion Hin'; subst; discriminate|].
-    destruct (beq (sr_binding rec) c_PostBinding); [inversion Hin'; subst; discriminate|].
-    destruct (beq (sr_binding rec) c_RedirectBinding); [inversion Hin'; subst; discriminate|discriminate]. }
+    destruct (is_empty (sr_acs rec)); [inversion Hin'; subst m; cbn [m_resp] in Hm; discriminate Hm|].
+    destruct (beq (sr_binding rec) c_PostBinding); [inversion Hin'; subst m; cbn [m_resp] in Hm; discriminate Hm|].
+    destruct (beq (sr_binding rec) c_RedirectBinding); [inversion Hin'; subst m; cbn [m_resp] in Hm; discriminate Hm|discriminate Hin']. }
   destruct (sr_done rec); cbn [negb] in T; [|exfalso; destruct T as [T _]; eapply NF; [exact T|exact Hin]].
   split; [reflexivity|].
   destruct (userinfo (sr_app rec) (sr_user rec)) as [u'|]; [|exfalso; destruct T as [T _]; eapply NF; [exact T|exact Hin]].
@@ -38,9 +38,9 @@ Proof.
   destruct sign_ok; cbn [negb] in T; [|exfalso; destruct T as [T _]; eapply NF; [exact T|exact Hin]].
   destruct T as [T _]. rewrite T in Hin. destruct Hin as [Hin|[]]. unfold deliver in Hin.
   assert (u' = u).
-  { destruct (is_empty (sr_acs rec)); [inversion Hin; subst; cbn in Hm; congruence|].
-    destruct (beq (sr_binding rec) c_PostBinding); [inversion Hin; subst; cbn in Hm; congruence|].
-    destruct (beq (sr_binding rec) c_RedirectBinding); [inversion Hin; subst; cbn in Hm; congruence|discriminate]. }
+  { destruct (is_empty (sr_acs rec)); [inversion Hin; subst m; cbn [m_resp] in Hm; now inversion Hm|].
+    destruct (beq (sr_binding rec) c_PostBinding); [inversion Hin; subst m; cbn [m_resp] in Hm; now inversion Hm|].
+    destruct (beq (sr_binding rec) c_RedirectBinding); [inversion Hin; subst m; cbn [m_resp] in Hm; now inversion Hm|discriminate Hin]. }
   subst. auto.
 Qed.
 
